@@ -53,7 +53,7 @@ class Ctx:
             self.broken.append({"kind": "proof-obligation", "names": C.failing_theorems(out2),
                                 "log": out2[-4000:]})
             C.log(out2[-3000:])
-        hits = C.source_audit()
+        hits = C.source_audit(pid)
         if hits:
             self.broken.append({"kind": "source-audit", "names": hits, "log": ""})
         if ok2:
